@@ -1,2 +1,3 @@
 import Dalek.Props.C01
+import Dalek.Props.C04
 import Dalek.Props.C11
